@@ -78,10 +78,10 @@ theorem c06_construct {n : Nat} {a : Bool} {s : State} (h : Reachable n a s) {i 
   refine ⟨?_, ?_, ?_, ?_⟩ <;> simp only [step, hv, if_true]
   · have := (ctor_spec I hv {} [] (by simp) rfl (by simp) (by simp)).2.1
     rw [state_given_nil] at this; exact this
-  · have := (ctor_spec I hv { typed := true, value := v } [] (by simp) rfl (by simp) (by simp)).2.1
+  · have := (ctor_spec I hv { typed := true, value := some v } [] (by simp) rfl (by simp) (by simp)).2.1
     rw [state_given_nil] at this; exact this
   · exact (ctor_spec I hv { cf := 2, inl := [x, junk, junk] } [x] (by simp) rfl (by simp) (by simp)).2.1
-  · exact (ctor_spec I hv { cf := 2, inl := [x, junk, junk], typed := true, value := v } [x] (by simp) rfl
+  · exact (ctor_spec I hv { cf := 2, inl := [x, junk, junk], typed := true, value := some v } [x] (by simp) rfl
       (by simp) (by simp)).2.1
 
 /-- `sp << h` appends `h`, whatever the current count (inline, inline→heap, heap, heap doubling); no other
@@ -113,8 +113,10 @@ theorem c06_merge {n : Nat} {a : Bool} {s : State} (h : Reachable n a s) {i j : 
     · intro hh; cases hh
     · split
       · intro _
-        have V := (setValue_spec M.1 i oj.value).2.1
-        exact ⟨by rw [V]; exact M.2.1, by rw [V]; exact M.2.2.1, fun k h1 h2 => by rw [V]; exact M.2.2.2.1 k h1 h2⟩
+        have V1 := setVal_spec M.1 i oj.value
+        have V := (setVal_spec V1.1 j none).2.1
+        exact ⟨by rw [V, V1.2.1]; exact M.2.1, by rw [V, V1.2.1]; exact M.2.2.1,
+          fun k h1 h2 => by rw [V, V1.2.1]; exact M.2.2.2.1 k h1 h2⟩
       · intro _; exact ⟨M.2.1, M.2.2.1, M.2.2.2.1⟩
 
 /-- merging a suspend point into itself (`sp << std::move(sp)`, `sp = std::move(sp)`) changes nothing (repaired
@@ -133,9 +135,13 @@ theorem c06_move {n : Nat} {a : Bool} {s : State} (h : Reachable n a s) {i j : N
   have I := reachable_inv h
   intro op hop
   rcases hop with rfl | rfl | rfl <;> simp only [step, hj, hv, if_true]
-  · have M := move_spec I hv hj oj.typed oj.value; exact ⟨M.2.1, M.2.2.1, M.2.2.2.1⟩
-  · have M := move_spec I hv hj false 0; exact ⟨M.2.1, M.2.2.1, M.2.2.2.1⟩
-  · have M := move_spec I hv hj true v; exact ⟨M.2.1, M.2.2.1, M.2.2.2.1⟩
+  · have M := move_spec I hv hj oj.typed oj.value
+    split
+    · have V := (setVal_spec M.1 j none).2.1
+      exact ⟨by rw [V]; exact M.2.1, by rw [V]; exact M.2.2.1, fun k h1 h2 => by rw [V]; exact M.2.2.2.1 k h1 h2⟩
+    · exact ⟨M.2.1, M.2.2.1, M.2.2.2.1⟩
+  · have M := move_spec I hv hj false none; exact ⟨M.2.1, M.2.2.1, M.2.2.2.1⟩
+  · have M := move_spec I hv hj true (some v); exact ⟨M.2.1, M.2.2.1, M.2.2.2.1⟩
 
 /-- `pop()`: on a non-empty suspend point it returns the *last* handle and removes exactly that one; on an empty
 one it returns `noop_coroutine` and changes nothing -/
@@ -426,17 +432,17 @@ theorem c06_inline_no_alloc {s : State} {i : Nat} {o : Obj} (hi : s.obj i = some
 /-- a typed suspend point is constructed with the value its producer supplied -/
 theorem c06_value_constructed {n : Nat} {a : Bool} {s : State} (_h : Reachable n a s) {i : Nat}
     (hv : vacant s i = true) (x : Ptr) (v : Nat) :
-    (∃ o, (step s (Op.ctorV i v)).1.obj i = some o ∧ o.typed = true ∧ o.value = v)
-    ∧ (∃ o, (step s (Op.ctorHV i x v)).1.obj i = some o ∧ o.typed = true ∧ o.value = v)
+    (∃ o, (step s (Op.ctorV i v)).1.obj i = some o ∧ o.typed = true ∧ o.value = some v)
+    ∧ (∃ o, (step s (Op.ctorHV i x v)).1.obj i = some o ∧ o.typed = true ∧ o.value = some v)
     ∧ (∀ j oj, s.obj j = some oj →
-        (∃ o, (step s (Op.ctorSV i j v)).1.obj i = some o ∧ o.typed = true ∧ o.value = v)
+        (∃ o, (step s (Op.ctorSV i j v)).1.obj i = some o ∧ o.typed = true ∧ o.value = some v)
         ∧ (∃ o, (step s (Op.mov i j)).1.obj i = some o ∧ o.typed = oj.typed ∧ o.value = oj.value)) := by
   obtain ⟨hil, hin⟩ := vacant_iff.1 hv
   refine ⟨?_, ?_, ?_⟩
   · simp only [step, hv, if_true]
-    exact ⟨{ typed := true, value := v }, by rw [obj_setObj _ i _ i hil]; simp, rfl, rfl⟩
+    exact ⟨{ typed := true, value := some v }, by rw [obj_setObj _ i _ i hil]; simp, rfl, rfl⟩
   · simp only [step, hv, if_true]
-    exact ⟨{ cf := 2, inl := [x, junk, junk], typed := true, value := v },
+    exact ⟨{ cf := 2, inl := [x, junk, junk], typed := true, value := some v },
       by rw [obj_setObj _ i _ i (by exact hil)]; simp, rfl, rfl⟩
   · intro j oj hj
     have hij : i ≠ j := by intro e; subst e; rw [hin] at hj; cases hj
@@ -445,28 +451,63 @@ theorem c06_value_constructed {n : Nat} {a : Bool} {s : State} (_h : Reachable n
       intro t w
       simp only [stepMove]
       rw [obj_setObj _ j _ i (by simpa using hjl), obj_setObj _ i _ i hil]; simp [hij]
+    have keyj : ∀ t w, (stepMove s i j t w oj).obj j = some { oj with cf := 0 } := by
+      intro t w
+      simp only [stepMove]
+      rw [obj_setObj _ j _ j (by simpa using hjl)]; simp
     have tv : ∀ t w, (moveFrom oj t w).typed = t ∧ (moveFrom oj t w).value = w := by
       intro t w; unfold moveFrom; split <;> exact ⟨rfl, rfl⟩
     refine ⟨?_, ?_⟩ <;> simp only [step, hj, hv, if_true]
-    · exact ⟨_, key true v, (tv true v).1, (tv true v).2⟩
-    · exact ⟨_, key _ _, (tv _ _).1, (tv _ _).2⟩
+    · exact ⟨_, key true (some v), (tv true (some v)).1, (tv true (some v)).2⟩
+    · split
+      · exact ⟨_, by rw [obj_setVal (keyj _ _) none i, if_neg hij]; exact key _ _, (tv _ _).1, (tv _ _).2⟩
+      · exact ⟨_, key _ _, (tv _ _).1, (tv _ _).2⟩
+
+/-- **Reading the value never changes anything**: the conversion on a non-const object (`operator X()`), the
+conversion on a const object, `await_resume()` — and all three in a row — leave the whole state untouched and yield
+the attached value (`Res.gone` only if the value had been moved away by a move construction / move assignment);
+`co_await` on a typed suspend point yields the same value.  So the value can be read any number of times, in any
+order, before or after awaiting. -/
+theorem c06_value_read {s : State} {i : Nat} {o : Obj} (hi : s.obj i = some o) (ht : o.typed = true) (me : Ptr) :
+    step s (Op.conv i) = (s, readVal o) ∧ step s (Op.cconv i) = (s, readVal o)
+    ∧ step s (Op.ares i) = (s, readVal o) ∧ step s (Op.value i) = (s, readVal o)
+    ∧ (step s (Op.await i me)).2 = readVal o
+    ∧ (∀ v, o.value = some v → readVal o = Res.num v) := by
+  refine ⟨?_, ?_, ?_, ?_, ?_, ?_⟩ <;> (try simp only [step, hi, ht, if_true])
+  intro v hv; simp [readVal, hv]
 
 /-- **The value is the one its producer supplied**: no operation changes the type or the value of an existing
-suspend point — adding, merging into it or out of it, moving out of it, pop, clear, co_await, growing to the heap —
-with the single exception of move-assignment between two typed suspend points, which (being the implicit
-member-wise move assignment) stores the source's value -/
+suspend point — reading it (in any way), adding, merging into it or out of it, slicing / moving its handles out, pop,
+clear, co_await, growing to the heap.  The only exceptions are the implicit member-wise move operations of
+`suspend_point<X>`: the *target* of a move-assignment between two typed suspend points receives the source's value,
+and the *source* of a typed move construction / move assignment is left with a moved-from value (`none`). -/
 theorem c06_value {n : Nat} {a : Bool} {s : State} (h : Reachable n a s) (op : Op) {k : Nat} {o o' : Obj}
     (hk : s.obj k = some o) (hk' : (step s op).1.obj k = some o') :
     o'.typed = o.typed ∧
-    (o'.value = o.value ∨ ∃ j oj, op = Op.assign k j ∧ s.obj j = some oj ∧ oj.typed = true ∧ o'.value = oj.value) := by
-  rcases step_value_frame (reachable_inv h) op with V | ⟨i, j, oi, oj, rfl, hi, hj, hti, htj, hothers, oi', e1, e2, e3⟩
+    (o'.value = o.value
+     ∨ (∃ j oj, op = Op.assign k j ∧ j ≠ k ∧ s.obj j = some oj ∧ o.typed = true ∧ oj.typed = true ∧ o'.value = oj.value)
+     ∨ (o.typed = true ∧ o'.value = none
+        ∧ ((∃ i, op = Op.mov i k) ∨ ∃ i oi, op = Op.assign i k ∧ i ≠ k ∧ s.obj i = some oi ∧ oi.typed = true))) := by
+  rcases step_value_frame (reachable_inv h) op with V | ⟨i, j, oj, rfl, hj, htj, hothers, oj', e1, e2, e3⟩
+      | ⟨i, j, oi, oj, rfl, hij, hi, hj, hti, htj, hothers, ⟨oi', a1, a2, a3⟩, ⟨oj', b1, b2, b3⟩⟩
   · have := V k o o' hk hk'; exact ⟨this.1, Or.inl this.2⟩
-  · by_cases ek : k = i
+  · by_cases ek : k = j
     · subst ek
-      rw [hi] at hk; cases hk
+      rw [hj] at hk; cases hk
       rw [e1] at hk'; cases hk'
-      exact ⟨by rw [e2, hti], Or.inr ⟨j, oj, rfl, hj, htj, e3⟩⟩
+      exact ⟨by rw [e2, htj], Or.inr (Or.inr ⟨htj, e3, Or.inl ⟨i, rfl⟩⟩)⟩
     · have := hothers k ek o o' hk hk'; exact ⟨this.1, Or.inl this.2⟩
+  · by_cases eki : k = i
+    · subst eki
+      rw [hi] at hk; cases hk
+      rw [a1] at hk'; cases hk'
+      exact ⟨by rw [a2, hti], Or.inr (Or.inl ⟨j, oj, rfl, Ne.symm hij, hj, hti, htj, a3⟩)⟩
+    · by_cases ekj : k = j
+      · subst ekj
+        rw [hj] at hk; cases hk
+        rw [b1] at hk'; cases hk'
+        exact ⟨by rw [b2, htj], Or.inr (Or.inr ⟨htj, b3, Or.inr ⟨i, oi, rfl, hij, hi, hti⟩⟩)⟩
+      · have := hothers k eki ekj o o' hk hk'; exact ⟨this.1, Or.inl this.2⟩
 
 /-! ## the pinned commit violated the property -/
 
